@@ -1039,6 +1039,12 @@ func getApproverAttestationAndKeyIDsForIndex(ctx context.Context, repo gitstore.
 					return nil, nil, fmt.Errorf("%w: failed to verify GitHub app approval attestation, signed by untrusted key", ErrVerificationFailed)
 				}
 
+				// The attestation is looked up by its path, ensure it was
+				// issued for the change being verified
+				if err := githubv01.ValidatePullRequestApproval(githubApprovalAttestation, targetRef, fromID.String(), toID.String()); err != nil {
+					return nil, nil, fmt.Errorf("%w: GitHub app approval attestation does not match the change", ErrVerificationFailed)
+				}
+
 				payloadBytes, err := githubApprovalAttestation.DecodeB64Payload()
 				if err != nil {
 					return nil, nil, err
